@@ -84,7 +84,7 @@ def run_shard(spec, rng, ctx):
             idx += 1
             if idx % spec["nshards"] != spec["shard"]:
                 continue
-            if time.time() > end + 30:
+            if C.now() > end + 30:
                 done_grid = False
                 break
             for case in cases_for(vec, rng):
@@ -95,8 +95,8 @@ def run_shard(spec, rng, ctx):
     from rv.monitors import Contracts
     con = Contracts(mode="record").install()
     try:
-        t_in = time.time() + max(3.0, (end - time.time()) * 0.5)
-        while time.time() < t_in:
+        t_in = C.now() + max(3.0, (end - C.now()) * 0.5)
+        while C.now() < t_in:
             alg = rng.choice(["dp", "cg"])
             case = C.draw_partition_case(rng, alg=alg, classes=("small", "ties", "zeros", "equal", "grid"))
             if len(case["values"]) > 7:
@@ -111,7 +111,7 @@ def run_shard(spec, rng, ctx):
     ctx.counters["insitu_value_evaluations"] += sum(v for k, v in con.evals.items() if k.startswith("value:"))
     ctx.reach.update({"contract." + k: v for k, v in con.evals.items()})
     # (3) random large vectors
-    while time.time() < end:
+    while C.now() < end:
         nb = rng.randint(1, 9)
         hi = rng.choice([10, 1000, 10 ** 6, 10 ** 9, 2 ** 40, 2 ** 49])
         vec = [rng.randint(0, hi) for _ in range(nb)]
